@@ -9,6 +9,17 @@ from harness.lib.core import VERIF, Ctx, Rng, lean_lock, run_driver, shrink_ops
 from harness.extract import acl as x_acl
 from harness.rigs import acl as rig
 
+MANIFEST = {
+    "text": "Lean 4 proof, for every rule list, packet and edit sequence, that the model of AccessControlList gives the verdict of the "
+            "lowest-positioned rule whose specified fields all match (wildcard masks characterised bit by bit), else the implicit action; "
+            "that exactly the decider's hit counter is incremented and counters never influence verdicts; that add/remove touch only the "
+            "addressed slot, reject out-of-range positions without change, and commute on distinct positions. Tie: constants, bounds and "
+            "scan shape regenerated from router.py (Gen/Acl.lean, obligation C07_gen_bounds) + differential rig R-acl through the Python "
+            "API, the request API and Router.from_config.",
+    "note": "C07-specific: Frame/IPPacket construction and pydantic coercion of ports/protocols are exercised by the rig, not modelled.",
+    "technique": "Lean 4 theorems over an executable ACL model; model tied by regenerated constants and a differential rig",
+    "design_ref": "5/C07",
+}
 MODULES = ["PrimaiteModel.Props.C07"]
 EXE = "drv_c07"
 
